@@ -280,5 +280,6 @@ def check(tier):
     ]
     for name, m in mut:
         ck.add_mutant(name, m, "priors", "harness.C16", "prior_job", dict(cases=cs))
+    ck.validate = ['inference']
     ck.run()
     return ck.finish(replay=REPLAY)
